@@ -27,8 +27,8 @@ SPEC = dict(
     cov_files=['utf.c'],
     cov_cases=24, cov_funcs=r'^a_utf_',
     # 'clang': the library compiled by clang 14 (compiler-conditional code, unspecified evaluation order), half of the cases
-    configs=lambda tier: [dict(name='default'), dict(name='clang', libcc='clang', nworkers=4, of=8), dict(name='o2', libflavour='san-o2', libdrop=['-fno-strict-aliasing'], nworkers=4, of=8)],
-    parallel_configs=3,
+    configs=lambda tier: [dict(name='mt', harness=['h_mt_codec.c'], hflags=['-DVF_MT=18'], flavour='tsan', nworkers=1), dict(name='default'), dict(name='clang', libcc='clang', nworkers=4, of=8), dict(name='o2', libflavour='san-o2', libdrop=['-fno-strict-aliasing'], nworkers=4, of=8)],
+    parallel_configs=4,
     workers={'quick': 8, 'thorough': 16},
     timeout={'quick': 900, 'thorough': 7200},
     assumptions=[
